@@ -397,6 +397,10 @@ func (t *taskState) marshalAppendOp(i int, po *prepOp) {
 		t.fail(i, po, "alias", "Marshal modified the value it was given, at "+path)
 		return
 	}
+	if ph := world.Phys(po.val); ph != po.phys {
+		t.fail(i, po, "alias", "Marshal modified the value it was given (slice headers, spare capacity or pointers): "+world.DiffPhys(po.phys, ph))
+		return
+	}
 	if res == nil && po.expNil {
 		return // value omitted entirely (C06's clause, not checked here)
 	}
